@@ -483,6 +483,162 @@ theorem handle_stateless (h : Handle) (before : List Upd) (u : Upd) :
     h.applySeq (before ++ [u]) = h.applySeq before ++ h.apply u := by
   simp [Handle.applySeq]
 
+/-! ## several client threads on one tree (no layer has state: `src_layers_stateless`) -/
+theorem advance_rest (tree : Rec) (shared : List Handle) (todo : List Call) :
+    ∀ (p : List Ev) (own : List Handle),
+      (advance tree shared p own todo).rest tree shared = p ++ seqFrom tree shared own todo := by
+  induction todo with
+  | nil =>
+    intro p own
+    cases p <;> simp [advance, Thread.rest, seqFrom]
+  | cons c cs ih =>
+    intro p own
+    cases p with
+    | nil => simp [advance, ih, seqFrom]
+    | cons e p => simp [advance, Thread.rest]
+
+theorem advance_started (tree : Rec) (shared : List Handle) (todo : List Call) :
+    ∀ (p : List Ev) (own : List Handle), (advance tree shared p own todo).started = true := by
+  induction todo with
+  | nil => intro p own; cases p <;> simp [advance]
+  | cons c cs ih =>
+    intro p own
+    cases p with
+    | nil => simp [advance, ih]
+    | cons e p => simp [advance]
+
+theorem step_tree (s : Sys) (g : Nat) : (s.step g).tree = s.tree ∧ (s.step g).shared = s.shared := by
+  unfold Sys.step
+  split
+  · exact ⟨rfl, rfl⟩
+  · split <;> exact ⟨rfl, rfl⟩
+
+theorem proj_append (l₁ l₂ : List (Nat × Ev)) (t : Nat) : proj (l₁ ++ l₂) t = proj l₁ t ++ proj l₂ t := by
+  simp [proj]
+
+/-- one grant: what thread `t` has caused so far plus what it will still cause is unchanged — whoever was granted -/
+theorem step_inv (s : Sys) (g t : Nat) :
+    proj (s.step g).log t ++ ((s.step g).threads t).rest s.tree s.shared
+      = proj s.log t ++ (s.threads t).rest s.tree s.shared := by
+  unfold Sys.step
+  split
+  · -- first grant of g
+    by_cases h : t = g
+    · subst h
+      simp only [if_true, advance_rest]
+      rfl
+    · simp [h]
+  · split
+    · rfl
+    · rename_i e p hp
+      by_cases h : t = g
+      · subst h
+        simp only [if_true, advance_rest, proj_append]
+        simp [proj, Thread.rest, hp]
+      · have : (g == t) = false := by simpa using fun h' => h h'.symm
+        simp [h, proj, this]
+
+theorem run_tree (sched : List Nat) : ∀ s : Sys, (s.run sched).tree = s.tree ∧ (s.run sched).shared = s.shared := by
+  induction sched with
+  | nil => intro s; exact ⟨rfl, rfl⟩
+  | cons g rest ih =>
+    intro s
+    have := ih (s.step g)
+    simp only [Sys.run, List.foldl_cons] at this ⊢
+    rw [this.1, this.2]
+    exact step_tree s g
+
+theorem run_inv (sched : List Nat) : ∀ (s : Sys) (t : Nat),
+    proj (s.run sched).log t ++ ((s.run sched).threads t).rest s.tree s.shared
+      = proj s.log t ++ (s.threads t).rest s.tree s.shared := by
+  induction sched with
+  | nil => intro s t; rfl
+  | cons g rest ih =>
+    intro s t
+    have h := ih (s.step g) t
+    rw [(step_tree s g).1, (step_tree s g).2] at h
+    simp only [Sys.run, List.foldl_cons] at h ⊢
+    rw [h, step_inv]
+
+/-- **conc_projection**: several client threads on ONE tree, ANY number of threads, ANY schedule (granularity: one
+    call into a base recorder per grant).  At every moment, what thread `t` has caused so far followed by what it
+    will still cause if it runs to its end is exactly what its script causes when it runs ALONE: no call of another
+    thread, at whatever point in between, changes where an operation of `t` goes, under which name, to whom its
+    updates are delivered or how often. -/
+theorem conc_projection (tree : Rec) (shared : List Handle) (scripts : Nat → List Call) (sched : List Nat) (t : Nat) :
+    proj ((Sys.init tree shared scripts).run sched).log t
+        ++ (((Sys.init tree shared scripts).run sched).threads t).rest tree shared
+      = seqFrom tree shared [] (scripts t) := by
+  have := run_inv sched (Sys.init tree shared scripts) t
+  simpa [Sys.init, proj, Thread.rest] using this
+
+/-- at every moment each thread's part of the global log is a prefix of its sequential behaviour … -/
+theorem conc_no_interference (tree : Rec) (shared : List Handle) (scripts : Nat → List Call) (sched : List Nat) (t : Nat) :
+    proj ((Sys.init tree shared scripts).run sched).log t <+: seqFrom tree shared [] (scripts t) :=
+  ⟨_, conc_projection tree shared scripts sched t⟩
+
+/-- … and once the thread has finished it is exactly its sequential behaviour: every describe / register went to
+    the recorders `Rec.deliver` names (to which `prefix_exact`, `filter_exact`, `router_exact`, `fanout_exact`,
+    `stack_transform` apply), every update to the leaves `Handle.apply` names (`fanout_all_once`), also for handles
+    SHARED between the threads -/
+theorem conc_complete (tree : Rec) (shared : List Handle) (scripts : Nat → List Call) (sched : List Nat) (t : Nat)
+    (hfin : (((Sys.init tree shared scripts).run sched).threads t).finished = true) :
+    proj ((Sys.init tree shared scripts).run sched).log t = seqFrom tree shared [] (scripts t) := by
+  have h := conc_projection tree shared scripts sched t
+  simp only [Thread.finished, Bool.and_eq_true, List.isEmpty_iff] at hfin
+  obtain ⟨⟨_, hp⟩, ht⟩ := hfin
+  simpa [Thread.rest, hp, ht, seqFrom] using h
+
+/-- the sequential behaviour of a thread, call by call: a describe / register causes `Rec.deliver` (and a register
+    adds `Rec.handle` to the thread's handles); an update through a handle `h` (shared or own) causes `Handle.apply` -/
+theorem seq_calls_exact (tree : Rec) (shared own : List Handle) (cs : List Call) :
+    (∀ o, seqFrom tree shared own (.op o :: cs)
+        = (tree.deliver o).map (fun d => Ev.got d.1 d.2)
+          ++ seqFrom tree shared (if o.reg then own ++ [tree.handle o] else own) cs)
+    ∧ (∀ sh i u h, (if sh then shared else own)[i]? = some h →
+        seqFrom tree shared own (.upd sh i u :: cs)
+          = (h.apply u).map (fun d => Ev.upd d.1 d.2) ++ seqFrom tree shared own cs) := by
+  constructor
+  · intro o; simp [seqFrom, evalCall]
+  · intro sh i u h hh; simp [seqFrom, evalCall, hh]
+
+/-- the global log holds nothing but what the threads cause: its length is the sum over the granted threads … every
+    entry belongs to the projection of its thread (so, with `conc_no_interference`, to that thread's sequential
+    behaviour) -/
+theorem conc_log_mem (log : List (Nat × Ev)) (t : Nat) (e : Ev) (h : (t, e) ∈ log) : e ∈ proj log t := by
+  simp only [proj, List.mem_map, List.mem_filter]
+  exact ⟨(t, e), ⟨h, by simp⟩, rfl⟩
+
+/-! ## recorder lifetime, raw masks -/
+
+/-- **handle_outlives_recorder**: a handle is a value of its own (`Fanout*` handles OWN their vector of inner
+    handles, a leaf handle is the base recorder's own handle, `src_fanout_register`): dropping the recorder tree
+    that made it changes nothing about what later calls on the handle cause. -/
+theorem handle_outlives_recorder (c : Client) (i : Nat) (us : List Upd) :
+    (c.dropTree).update i us = c.update i us ∧ (c.dropTree).tree = none ∧ (c.dropTree).handles = c.handles := by
+  exact ⟨rfl, rfl, rfl⟩
+
+/-- updates after the drop still reach every recorder that received the registration exactly once -/
+theorem update_after_drop_all_once (r : Rec) (op : Op) (us : List Upd) (l : Nat × Op) (e : Upd) :
+    let c : Client := { tree := some r, handles := [r.handle op] }
+    (((c.dropTree).update 0 us).flatMap normD).count (l, e) = (r.deliver op).count l * (us.flatMap norm).count e := by
+  simp only [Client.dropTree, Client.update, List.getElem?_cons_zero]
+  rw [fanout_all_once_seq, handle_leaves]
+
+/-- **mask_ofBits_iff**: `add_route` accepts exactly the bit patterns of COUNTER, GAUGE, HISTOGRAM and ALL; every
+    other mask — NONE and the composites COUNTER|GAUGE, COUNTER|HISTOGRAM, GAUGE|HISTOGRAM — is refused (panic),
+    never half-applied -/
+theorem mask_ofBits_iff (b : Nat) (m : Mask) : Mask.ofBits b = some m ↔ b = m.bits := by
+  constructor
+  · intro h
+    unfold Mask.ofBits at h
+    split at h <;> simp_all [Mask.bits] <;> (subst h; rfl)
+  · rintro rfl
+    cases m <;> rfl
+
+theorem mask_composite_refused : Mask.ofBits 0 = none ∧ Mask.ofBits 3 = none ∧ Mask.ofBits 5 = none ∧ Mask.ofBits 6 = none :=
+  ⟨rfl, rfl, rfl, rfl⟩
+
 /-! ## source facts (`tools/extract.py`, regenerated from the working tree on every run) -/
 
 set_option maxRecDepth 8000 in
@@ -561,6 +717,128 @@ theorem src_prefix :
     ∧ Generated.layers_prefix_key_name_result = "KeyName::from(new_name)" := by
   decide
 
+
+/-! ### round 3: the CALL SITES of the helpers, the fields, the builders (what the pins above did not cover) -/
+
+set_option maxRecDepth 20000 in
+/-- every `Recorder` method of `Router` asks `route` — with ITS OWN kind and ITS OWN trie, and the name of the key — for the
+    target and forwards the call, arguments unchanged, to that target and to nobody else (`Rec.deliver` / `Rec.handle` on
+    `.router`; a `route_fast`, a cache in front of `route`, a wrong trie for a kind would be a different text) -/
+theorem src_recorder_impl_router :
+    Generated.layers_router_recorder_impl =
+      ["fndescribe_counter(&self,key_name:KeyName,unit:Option<Unit>,description:SharedString){lettarget=self.route(MetricKind::Counter,key_name.as_str(),&self.counter_routes);target.describe_counter(key_name,unit,description)}",
+       "fndescribe_gauge(&self,key_name:KeyName,unit:Option<Unit>,description:SharedString){lettarget=self.route(MetricKind::Gauge,key_name.as_str(),&self.gauge_routes);target.describe_gauge(key_name,unit,description)}",
+       "fndescribe_histogram(&self,key_name:KeyName,unit:Option<Unit>,description:SharedString){lettarget=self.route(MetricKind::Histogram,key_name.as_str(),&self.histogram_routes);target.describe_histogram(key_name,unit,description)}",
+       "fnregister_counter(&self,key:&Key,metadata:&Metadata<'_>)->Counter{lettarget=self.route(MetricKind::Counter,key.name(),&self.counter_routes);target.register_counter(key,metadata)}",
+       "fnregister_gauge(&self,key:&Key,metadata:&Metadata<'_>)->Gauge{lettarget=self.route(MetricKind::Gauge,key.name(),&self.gauge_routes);target.register_gauge(key,metadata)}",
+       "fnregister_histogram(&self,key:&Key,metadata:&Metadata<'_>)->Histogram{lettarget=self.route(MetricKind::Histogram,key.name(),&self.histogram_routes);target.register_histogram(key,metadata)}"] := by
+  decide
+
+set_option maxRecDepth 20000 in
+/-- every `Recorder` method of `Filter` asks `should_filter` about the NAME, returns at once (describe) / returns the
+    `noop()` handle of its kind (register) when it says yes, and otherwise forwards the call unchanged to `inner` -/
+theorem src_recorder_impl_filter :
+    Generated.layers_filter_recorder_impl =
+      ["fndescribe_counter(&self,key_name:KeyName,unit:Option<Unit>,description:SharedString){ifself.should_filter(key_name.as_str()){return;}self.inner.describe_counter(key_name,unit,description)}",
+       "fndescribe_gauge(&self,key_name:KeyName,unit:Option<Unit>,description:SharedString){ifself.should_filter(key_name.as_str()){return;}self.inner.describe_gauge(key_name,unit,description)}",
+       "fndescribe_histogram(&self,key_name:KeyName,unit:Option<Unit>,description:SharedString){ifself.should_filter(key_name.as_str()){return;}self.inner.describe_histogram(key_name,unit,description)}",
+       "fnregister_counter(&self,key:&Key,metadata:&Metadata<'_>)->Counter{ifself.should_filter(key.name()){returnCounter::noop();}self.inner.register_counter(key,metadata)}",
+       "fnregister_gauge(&self,key:&Key,metadata:&Metadata<'_>)->Gauge{ifself.should_filter(key.name()){returnGauge::noop();}self.inner.register_gauge(key,metadata)}",
+       "fnregister_histogram(&self,key:&Key,metadata:&Metadata<'_>)->Histogram{ifself.should_filter(key.name()){returnHistogram::noop();}self.inner.register_histogram(key,metadata)}"] := by
+  decide
+
+set_option maxRecDepth 20000 in
+/-- every `Recorder` method of `Prefix` builds the new name with `prefix_key_name` / `prefix_key` and forwards the call with
+    it, unit / description / metadata unchanged, to `inner` -/
+theorem src_recorder_impl_prefix :
+    Generated.layers_prefix_recorder_impl =
+      ["fndescribe_counter(&self,key_name:KeyName,unit:Option<Unit>,description:SharedString){letnew_key_name=self.prefix_key_name(key_name);self.inner.describe_counter(new_key_name,unit,description)}",
+       "fndescribe_gauge(&self,key_name:KeyName,unit:Option<Unit>,description:SharedString){letnew_key_name=self.prefix_key_name(key_name);self.inner.describe_gauge(new_key_name,unit,description)}",
+       "fndescribe_histogram(&self,key_name:KeyName,unit:Option<Unit>,description:SharedString){letnew_key_name=self.prefix_key_name(key_name);self.inner.describe_histogram(new_key_name,unit,description)}",
+       "fnregister_counter(&self,key:&Key,metadata:&Metadata<'_>)->Counter{letnew_key=self.prefix_key(key);self.inner.register_counter(&new_key,metadata)}",
+       "fnregister_gauge(&self,key:&Key,metadata:&Metadata<'_>)->Gauge{letnew_key=self.prefix_key(key);self.inner.register_gauge(&new_key,metadata)}",
+       "fnregister_histogram(&self,key:&Key,metadata:&Metadata<'_>)->Histogram{letnew_key=self.prefix_key(key);self.inner.register_histogram(&new_key,metadata)}"] := by
+  decide
+
+set_option maxRecDepth 20000 in
+/-- every `Recorder` method of `Fanout` loops over ALL `recorders` in order (no `take`, no bounded collection); a register
+    collects the handles of all of them into the `Fanout*` handle of its kind -/
+theorem src_recorder_impl_fanout :
+    Generated.layers_fanout_recorder_impl =
+      ["fndescribe_counter(&self,key_name:KeyName,unit:Option<Unit>,description:SharedString){forrecorderin&self.recorders{recorder.describe_counter(key_name.clone(),unit,description.clone());}}",
+       "fndescribe_gauge(&self,key_name:KeyName,unit:Option<Unit>,description:SharedString){forrecorderin&self.recorders{recorder.describe_gauge(key_name.clone(),unit,description.clone());}}",
+       "fndescribe_histogram(&self,key_name:KeyName,unit:Option<Unit>,description:SharedString){forrecorderin&self.recorders{recorder.describe_histogram(key_name.clone(),unit,description.clone());}}",
+       "fnregister_counter(&self,key:&Key,metadata:&Metadata<'_>)->Counter{letcounters=self.recorders.iter().map(|recorder|recorder.register_counter(key,metadata)).collect();FanoutCounter::from_counters(counters).into()}",
+       "fnregister_gauge(&self,key:&Key,metadata:&Metadata<'_>)->Gauge{letgauges=self.recorders.iter().map(|recorder|recorder.register_gauge(key,metadata)).collect();FanoutGauge::from_gauges(gauges).into()}",
+       "fnregister_histogram(&self,key:&Key,metadata:&Metadata<'_>)->Histogram{lethistograms=self.recorders.iter().map(|recorder|recorder.register_histogram(key,metadata)).collect();FanoutHistogram::from_histograms(histograms).into()}"] := by
+  decide
+
+set_option maxRecDepth 20000 in
+/-- every `Recorder` method of `Stack` only delegates to what it wraps -/
+theorem src_recorder_impl_stack :
+    Generated.layers_stack_recorder_impl =
+      ["fndescribe_counter(&self,key_name:KeyName,unit:Option<Unit>,description:SharedString){self.inner.describe_counter(key_name,unit,description);}",
+       "fndescribe_gauge(&self,key_name:KeyName,unit:Option<Unit>,description:SharedString){self.inner.describe_gauge(key_name,unit,description);}",
+       "fndescribe_histogram(&self,key_name:KeyName,unit:Option<Unit>,description:SharedString){self.inner.describe_histogram(key_name,unit,description);}",
+       "fnregister_counter(&self,key:&Key,metadata:&Metadata<'_>)->Counter{self.inner.register_counter(key,metadata)}",
+       "fnregister_gauge(&self,key:&Key,metadata:&Metadata<'_>)->Gauge{self.inner.register_gauge(key,metadata)}",
+       "fnregister_histogram(&self,key:&Key,metadata:&Metadata<'_>)->Histogram{self.inner.register_histogram(key,metadata)}"] := by
+  decide
+
+set_option maxRecDepth 20000 in
+/-- **src_layers_stateless**: the layer structs hold nothing but their configuration and what they wrap — no atomic, lock,
+    cell or other interior-mutable field —, the five files contain no `static`, `thread_local!`, lock, cell, atomic, `Weak`
+    or `Rc` at all, and the single `unsafe` is the `get_unchecked` of `Router::route`.  With every `Recorder` method taking
+    `&self` (`src_recorder_impl_*`) no call can leave anything behind for a later or a concurrent call: the model of
+    several client threads (`Sys`) has no shared state besides the read-only tree, and a handle needs nothing of the
+    recorder that made it. -/
+theorem src_layers_stateless :
+    Generated.layers_struct_fields =
+      ["Router{default:Box<dynRecorder+Sync>,global_mask:MetricKindMask,targets:Vec<Box<dynRecorder+Sync>>,counter_routes:Trie<String,usize>,gauge_routes:Trie<String,usize>,histogram_routes:Trie<String,usize>,}",
+       "RouterBuilder{default:Box<dynRecorder+Sync>,global_mask:MetricKindMask,targets:Vec<Box<dynRecorder+Sync>>,counter_routes:Trie<String,usize>,gauge_routes:Trie<String,usize>,histogram_routes:Trie<String,usize>,}",
+       "Filter<R>{inner:R,automaton:AhoCorasick,}",
+       "Prefix<R>{prefix:SharedString,inner:R,}",
+       "Fanout{recorders:Vec<Box<dynRecorder+Sync>>,}",
+       "FanoutBuilder{recorders:Vec<Box<dynRecorder+Sync>>,}",
+       "Stack<R>{inner:R,}",
+       "pubstructPrefixLayer(&'staticstr);"]
+    ∧ Generated.layers_state_tokens = ["router:unsafe"] := by
+  decide
+
+set_option maxRecDepth 20000 in
+/-- **src_fanout_register**: the `Fanout*` handles are built from the OWNED vector of inner handles and wrapped in an `Arc`
+    of their own (`handle_outlives_recorder`); `FanoutBuilder::add_recorder` pushes, `build` moves the vector as it is -/
+theorem src_fanout_register :
+    Generated.layers_fanout_conversions =
+      ["implFrom<FanoutCounter>forCounter{fnfrom(counter:FanoutCounter)->Counter{Counter::from_arc(Arc::new(counter))}}",
+       "{pubfnfrom_counters(counters:Vec<Counter>)->Self{Self{counters}}}",
+       "implFrom<FanoutGauge>forGauge{fnfrom(gauge:FanoutGauge)->Gauge{Gauge::from_arc(Arc::new(gauge))}}",
+       "{pubfnfrom_gauges(gauges:Vec<Gauge>)->Self{Self{gauges}}}",
+       "implFrom<FanoutHistogram>forHistogram{fnfrom(histogram:FanoutHistogram)->Histogram{Histogram::from_arc(Arc::new(histogram))}}",
+       "{pubfnfrom_histograms(histograms:Vec<Histogram>)->Self{Self{histograms}}}"]
+    ∧ Generated.layers_fanout_builder_impl =
+      ["fnadd_recorder<R>(mutself,recorder:R)->FanoutBuilderwhereR:Recorder+Sync+'static,{self.recorders.push(Box::new(recorder));self}",
+       "fnbuild(self)->Fanout{Fanout{recorders:self.recorders}}"] := by
+  decide
+
+set_option maxRecDepth 20000 in
+/-- **src_router_builder**: `from_recorder` starts with the NONE mask, no target and three empty tries; `build` moves every
+    field into the `Router` unchanged; the wildcard arm of `add_route` is the `panic!` (`Mask.ofBits` = `none`) and nothing
+    follows the `match` but returning `self`.  `Stack::new` wraps, `push` wraps what the layer makes of the current inner
+    recorder (`stack`), `install` hands the stack to `set_global_recorder`. -/
+theorem src_router_builder :
+    Generated.layers_router_builder_impl =
+      ["fnfrom_recorder<R>(recorder:R)->SelfwhereR:Recorder+Sync+'static,{RouterBuilder{default:Box::new(recorder),global_mask:MetricKindMask::NONE,targets:Vec::new(),counter_routes:Trie::new(),gauge_routes:Trie::new(),histogram_routes:Trie::new(),}}",
+       "fnbuild(self)->Router{Router{default:self.default,global_mask:self.global_mask,targets:self.targets,counter_routes:self.counter_routes,gauge_routes:self.gauge_routes,histogram_routes:self.histogram_routes,}}"]
+    ∧ Generated.layers_add_route_wildcard = "panic!(\"cannotaddrouteforunknownoremptymetrickindmask\")"
+    ∧ Generated.layers_add_route_epilogue = "self"
+    ∧ Generated.layers_stack_impl =
+      ["fnnew(inner:R)->Self{Stack{inner}}",
+       "fnpush<L:Layer<R>>(self,layer:L)->Stack<L::Output>{Stack::new(layer.layer(self.inner))}"]
+    ∧ Generated.layers_stack_install_impl =
+      ["fninstall(self)->Result<(),SetRecorderError<Self>>{metrics::set_global_recorder(self)}"] := by
+  decide
+
 /-! ## non-vacuity: concrete, non-trivial inputs -/
 
 section examples
@@ -632,6 +910,26 @@ example : ((Handle.fan [.leaf 0 (opc "g"), .leaf 1 (opc "g")]).applySeq [.gset 5
 -- sibling routes "fo", "fo.a", "fo.b" (the radix trie has a value-less node for "fo."): "fo.c" still goes to "fo"
 example : routeIdx [(.all, ['f', 'o']), (.all, ['f', 'o', '.', 'a']), (.all, ['f', 'o', '.', 'b'])] .counter
     ['f', 'o', '.', 'c'] = some 0 := by decide
+
+-- two client threads on one tree (router over a 2-wide fan-out): thread 0 registers "a1" (→ recorders 1 and 2), thread 1
+-- registers "b" (→ default 0); under the schedule 0,1,0,1,0 thread 1's call lands BETWEEN the two deliveries of thread 0's
+private def ctree : Rec := .router (.base 0) [(.all, ['a'])] [.fanout [.base 1, .base 2]]
+private def cscripts : Nat → List Call
+  | 0 => [.op (opc "a1"), .upd false 0 (.cinc 5)]
+  | 1 => [.op (opc "b")]
+  | _ => []
+private def evBase : Ev → Nat
+  | .got b _ => b
+  | .upd l _ => l.1
+example : ((Sys.init ctree [] cscripts).run [0, 1, 0, 1, 0]).log.map (fun x => (x.1, evBase x.2)) = [(0, 1), (1, 0), (0, 2)] := by
+  decide
+-- … and run to the end each thread has caused exactly what it causes alone (register to 1, 2, then the update to 1, 2)
+example : (proj ((Sys.init ctree [] cscripts).run [0, 1, 0, 1, 0, 0, 0]).log 0).map evBase = [1, 2, 1, 2] := by decide
+example : (((Sys.init ctree [] cscripts).run [0, 1, 0, 1, 0, 0, 0]).threads 0).finished = true := by decide
+-- a handle used after its tree is gone; a composite mask
+example : ((({ tree := some ctree, handles := [ctree.handle (opc "a1")] } : Client).dropTree).update 0 [.cinc 1]).map (·.1.1) = [1, 2] := by
+  decide
+example : Mask.ofBits 3 = none ∧ Mask.ofBits 7 = some .all := by decide
 
 end examples
 
